@@ -31,8 +31,11 @@ func init() {
 	register(&PropDef{ID: "C07", Level: "other", Run: runC07,
 		Explanation: "Replay defence structure: (ONECACHE) exactly one replay history is created in the server, its field is never reassigned, and every service of every generation receives a pointer to that very field (not to a copy); (GATE) in the " +
 			"authenticator every success return is cut by ReplayCache.Add(matched id, this handshake's salt) == true and no path from a successful key search to success bypasses it; a refused replay goes down the silent failure path (SILENT); " +
-			"(ATOMIC) ReplayCache.Add performs lookup, rotation and insert inside one critical section with every field access under the mutex.",
-		NotDecided: "the 'most recent N' arithmetic of the two-generation rotation and of resizing, the 32-bit collision rate.",
+			"(ATOMIC) ReplayCache.Add performs lookup, rotation and insert inside one critical section with every field access under the mutex; " +
+			"(HISTORY) remembered handshakes leave the history only by rotation: every store to a generation map outside construction either moves another generation there on an edge where len(that generation) was compared directly against the capacity and found full, " +
+			"or empties a generation whose content was moved on, or lies on a capacity==0 / nil-cache edge; no delete/clear on a generation; Add consults every generation under the key it inserts, a hit in any of them makes it return false, the key covers id and salt, " +
+			"and with the history enabled Add cannot answer without having inserted the handshake (refused replays are refreshed too).",
+		NotDecided: "the counting argument itself (that active plus archive hold at least N recent handshakes given these conditions), the 32-bit collision rate.",
 	})
 	register(&PropDef{ID: "C08", Level: "other", Run: runC08,
 		Explanation: "Server-salt marking structure: (SELECT) for the SDK's cipher specs the marking generator is selected exactly when saltSize - markLen >= minEntropy, i.e. saltSize >= 20; (CONSTRUCT) cipher entries are built only by MakeCipherEntry and their " +
@@ -426,6 +429,7 @@ func runC07(c *Ctx) {
 	ruleOneCache(c)
 	ruleSaltSlice(c, "GATE")
 	ruleAtomic(c, "ATOMIC", map[string]bool{"(*service.ReplayCache).Add": true})
+	ruleHistory(c)
 	if f := c.P.Fn("(*service.ReplayCache).Add"); f == nil {
 		c.Undecided("ATOMIC", "anchor:ReplayCache.Add", "-", "ReplayCache has no Add method")
 	}
